@@ -127,6 +127,35 @@ func mcWorlds(family string) []Scenario {
 			}
 		}
 	}
+	// the families' established worlds (MC.tla PreVariants)
+	var pre [][]sut.Event
+	switch family {
+	case "remember":
+		pre = [][]sut.Event{{{Act: "LoginPost", B: "b1", Pid: "u1", Pw: 1, Rm: true}, {Act: "DropSession", B: "b1"}}}
+	case "expire":
+		pre = [][]sut.Event{{{Act: "LoginPost", B: "b1", Pid: "u1", Pw: 1}}}
+	case "recover":
+		pre = [][]sut.Event{{{Act: "RecoverStart", B: "b1", Pid: "u1"}}}
+	case "otp":
+		pre = [][]sut.Event{{{Act: "LoginPost", B: "b1", Pid: "u2", Pw: 2}}}
+	case "oauth":
+		pre = [][]sut.Event{{{Act: "OAuthStart", B: "b1", Prov: "pa", Rm: true}}}
+	case "twofa":
+		pre = [][]sut.Event{{{Act: "LoginPost", B: "b1", Pid: "u1", Pw: 1}}, {{Act: "LoginPost", B: "b1", Pid: "u2", Pw: 2}}}
+	case "lock":
+		pre = [][]sut.Event{{{Act: "LoginPost", B: "b1", Pid: "u1", Pw: -1}}}
+	}
+	base := len(ws)
+	for i := 0; i < base; i++ {
+		if len(ws[i].Steps) > 0 {
+			continue
+		}
+		for _, p := range pre {
+			w := ws[i]
+			w.Steps = p
+			ws = append(ws, w)
+		}
+	}
 	return ws
 }
 
